@@ -161,7 +161,7 @@ func (e *Executor) RunTask(ctx context.Context, call *Call) error {
 	return e.startExecution(ctx, t, func(ctx context.Context) error {
 		e.Logger.VerboseErrf(logger.Magenta, "task: %q started\n", call.Task)
 		if err := e.runDeps(ctx, t); err != nil {
-			verifhook.Ev(ctx, "depsDone")
+			verifhook.Ev(ctx, "depsDone", verifhook.ErrClass(err))
 			if _, isExitError := interp.IsExitStatus(err); isExitError && !call.Indirect {
 				return &errors.TaskRunError{TaskName: t.Task, Err: err}
 			}
